@@ -479,7 +479,7 @@ static ares_status_t process_option(ares_sysconfig_t *sysconfig,
       status = ARES_EFORMERR;
       goto done;
     }
-    sysconfig->timeout_ms = valint * 1000;
+    sysconfig->timeout_ms = (size_t)valint * 1000;
   } else if (ares_streq(key, "retry") || ares_streq(key, "attempts")) {
     if (!valint_ok || valint == 0) {
       status = ARES_EFORMERR;
